@@ -234,3 +234,14 @@ func TestFindingF15AdjustOffsShortSpan(t *testing.T) {
 		}
 	}
 }
+
+func TestFindingF16WSBeforeComma(t *testing.T) {
+	for _, s := range []string{"<sip:a@b>;tag=abc , <sip:c@d>\r\nX", "<sip:a@b>;lr , <sip:c@d>\r\nX", "sip:a@b;q=0.5\r\n ,<sip:c@d>\r\nX", "<sip:a@b>;expires=\"1\" ,<sip:c@d>\r\nX"} {
+		var c sipsp.PContacts
+		c.Init(make([]sipsp.PFromBody, 4))
+		_, e := sipsp.ParseAllContactValues([]byte(s), 0, &c)
+		if e != 0 || c.N != 2 {
+			t.Errorf("%q: err=%v N=%d", s, e, c.N)
+		}
+	}
+}
